@@ -12,6 +12,7 @@ mod core;
 mod gens;
 mod obs;
 mod props;
+mod rsgen;
 
 use crate::core::{Ctx, Tier};
 use std::path::PathBuf;
